@@ -4,6 +4,26 @@ VERIF = os.path.dirname(os.path.dirname(os.path.abspath(__file__)))
 ALL = [f"C{n:02d}" for n in range(1, 21)]
 
 CLAIMED = {
+ "C07": dict(
+   text="Theorems (Coq): for every oracle answer the reported objective undoes the sign flip exactly (NLP) and adds the objective's constant (LP), so that with the oracle returning the value of what it was handed the report equals the objective at the returned point (via C01 and C05); the values hold exactly one entry per problem variable in problem order; vector and matrix handles retrieve each element's own entry with the handle's order and shape. Tie: scripted answers at both seams (objective, values, every handle incl. reversed/stepped/transposed/symmetric views) compared exactly with the model; real solves checked by interval enclosure of the objective at the reported values.",
+   note="Trusted: Coq kernel; Reals axioms for the evalR statements; oracle contract (r.fun is the value at r.x of the function handed over); Interval library for the numeric channel; stubs.",
+   technique="Coq proof (case analysis over the generated chains, list lemmas) + exact stub correspondence + interval-enclosure check of real solves", ref="6/C07"),
+ "C08": dict(
+   text="Theorems (Coq): the data handed to linprog denote the user's objective and feasible set (C05), any two matrix forms denoting the same model have the same verdict and optimal value (so the choice of reference is immaterial), maximise is minimise of the negation with the value flipped back and the constant added, the reported status is linprog's verdict through the generated chain, all LP method names route to the LP wrapper, repeated solves hand over what a fresh extraction would. Tie: seam arguments compared exactly; status map enumerated exhaustively (200 scripted results); differential against real linprog on an independently assembled matrix form (each problem solved twice).",
+   note="Trusted: Coq kernel; Reals axioms as printed; linprog/HiGHS as an oracle returning the verdict and optimum of the LP it is given (PARTIAL in that sense); the reference LP is assembled from evaluate() only.",
+   technique="Coq proof (denotation of extracted LP data, extensionality of LP verdicts) + exact seam correspondence + differential solve against an independent matrix form", ref="6/C08"),
+ "C09": dict(
+   text="PARTIAL. Theorems (Coq) about optyx's side only: the function handed to scipy.optimize.minimize denotes s*objective (C01), its gradient entries are the true partial derivatives (C02), bounds are handed over exactly for the generated bounds-capable methods, the default start lies within the declared bounds, the answer is mapped back without changing the point and with the objective in the user's orientation. That SciPy converges, and that callables agreeing only up to rounding lead it along the same iterates, cannot be expressed in an executable model. Tie: callables captured at the seam probed at dyadic points (fun, every jac entry, every hess entry) by interval enclosure; x0/bounds/flags compared with the model; manufactured convex problems solved by optyx and by a direct SciPy call with hand-written NumPy callables from the same start.",
+   note="Trusted: Coq kernel; Reals/Coquelicot axioms; Interval library; SciPy as an oracle assumed extensional in the values of its callables; solver accuracy tolerance 1e-5 (1e-3 for the barrier method trust-constr) in the differential search.",
+   technique="Coq proof of the wrapper's argument assembly and result mapping + interval-enclosure probes at the solver seam + differential solve against direct SciPy calls", ref="6/C09"),
+ "C10": dict(
+   text="Theorems (Coq): violation is the amount by which the stated relation fails; satisfied <=> relation within tol; zero violation <=> relation; element-wise builders give one constraint per element in position and reject mismatched shapes; reflected comparisons denote the same relation; the function handed to SciPy is >= 0 (= 0) exactly on the feasible set and the Jacobian handed over is the derivative of that function. Tie: exhaustive operand-kind product (scalar / vector n=1..3 / matrix left operands; Python and NumPy scalars, expressions, vectors, lists, arrays, matrices incl. mismatching shapes; both positions; three senses) compared exactly; evaluate/violation/is_satisfied and SciPy dict fun/jac probed numerically.",
+   note="Trusted: Coq kernel; Reals/Coquelicot axioms; Interval library for probes; model Constraint.v. One known finding (K5): a 0-d ndarray on the LEFT of a scalar expression yields numpy.bool_ instead of a Constraint (loud ConstraintError later).",
+   technique="Coq proof (real-arithmetic case analysis, Coquelicot is_derive for the sign flip) + exhaustive operand-kind correspondence + interval probes", ref="6/C10"),
+ "C18": dict(
+   text="Theorems (Coq, closed): with strict the oracle is never reached whatever the method; when the request can be served the error is IntegerVariableError naming exactly the non-continuous variables in problem order; without strict the warning names exactly those and the oracle call equals the relaxed problem's; binary declarations carry [0,1]; the gate precedes the solver call in both wrappers (generated from the source order). Tie: exhaustive product 12 declaration routes x 2 domains x 13 methods x strict x linear/non-linear (1248 cases) with stubbed seams; non-strict vs relaxed with real solvers.",
+   note="Trusted: Coq kernel (no axioms); translator (gate-before-oracle line order); stubs. Forcing an LP method on a non-linear model raises NonLinearError before the gate (still before any solver call).",
+   technique="Coq proof over the solve-front model + exhaustive stub correspondence", ref="6/C18"),
  "C02": dict(
    text="Theorems (Coq, Coquelicot is_derive): for the Autodiff.v model of symbolic differentiation (5 binary rules, 19 unary rules, 11 registered vector/matrix rules, 6 simplifiers), at every regular point the derivative tree evaluates to the true partial derivative of the denoted function; for absent variables the result is literally the constant 0; derivative trees stay in the fragment (closed for re-differentiation); the explicit-stack traversal equals the recursive one. Tie: the derivative TREE returned by gradient() on the default and the forced explicit-stack path must equal the model's tree exactly, and the value of the returned tree must lie in the interval enclosure of the model tree's real denotation, on generated API programs, every run.",
    note="Trusted: Coq kernel; Reals/Coquelicot axioms as printed; Interval library for the numeric channel; model Autodiff.v. log2/log10 are excluded from the real-number theorem (their derivative embeds the double nearest ln 2 / ln 10) but their trees are compared exactly. dot_same_ok: equal object ids denote the same vector object (serialiser numbering).",
